@@ -1,7 +1,7 @@
 /-
   Proofs/C11_NumDefs.lean — Boolean checkers over the 65 536 sixteen-bit patterns for the table-free codecs
   (bfloat codes, half-precision inputs).  Instances: Proofs/C11_Bf_<kk>.lean
-  (4096 patterns per file, built in parallel; they import no generated table).
+  (1024 patterns per file, built in parallel; they import no generated table).
 -/
 import BitstringModel.Model.C11_Float
 
@@ -17,6 +17,7 @@ def bfChk (c : Nat) : Bool :=
   && (halfVal c == (halfClass c).toFVal)
   && (f64Val (unpackIEEE 5 10 c) == halfVal c)
 
-def bfChunkOk (k : Nat) : Bool := allBelow 4096 fun i => bfChk (4096 * k + i)
+/-- 1024 patterns per obligation (≈ 1.5 GB of kernel memory each; 4096 would need ≈ 4.6 GB, too much for 16 parallel jobs). -/
+def bfChunkOk (k : Nat) : Bool := allBelow 1024 fun i => bfChk (1024 * k + i)
 
 end BM.C11
